@@ -238,23 +238,19 @@ theorem fullText_eq (p : Nat) : fullText p = A4 ++ (natDigits p ++ (Gen.payloadE
   rw [version_digits, textPre_split, textMid_split, textPost_split]
   simp [A4, List.append_assoc]
 
-theorem fullText_take (p : Nat) : (fullText p).take ((fullText p).length - 4) = seenText p := by
-  rw [fullText_eq, seenText_A4]
-  have h4 := post1_len
-  have hlen : (A4 ++ (natDigits p ++ (Gen.payloadEnd ++ post1))).length - 4 =
-      A4.length + ((natDigits p).length + (Gen.payloadEnd.length + (post1.length - 4))) := by
+theorem take_but4 (X P : Bytes) (h : 4 ≤ P.length) :
+    (X ++ P).take ((X ++ P).length - 4) = X ++ P.take (P.length - 4) := by
+  have hlen : (X ++ P).length - 4 = X.length + (P.length - 4) := by
     simp only [List.length_append]; omega
   rw [hlen, List.take_append, List.take_of_length_le (by omega)]
   congr 1
-  rw [show A4.length + ((natDigits p).length + (Gen.payloadEnd.length + (post1.length - 4))) - A4.length
-      = (natDigits p).length + (Gen.payloadEnd.length + (post1.length - 4)) by omega]
-  rw [List.take_append, List.take_of_length_le (by omega)]
-  congr 1
-  rw [show (natDigits p).length + (Gen.payloadEnd.length + (post1.length - 4)) - (natDigits p).length
-      = Gen.payloadEnd.length + (post1.length - 4) by omega]
-  rw [List.take_append, List.take_of_length_le (by omega)]
-  congr 1
-  rw [show Gen.payloadEnd.length + (post1.length - 4) - Gen.payloadEnd.length = post1.length - 4 by omega]
+  rw [show X.length + (P.length - 4) - X.length = P.length - 4 by omega]
+
+theorem fullText_take (p : Nat) : (fullText p).take ((fullText p).length - 4) = seenText p := by
+  rw [fullText_eq, seenText_A4]
+  have := take_but4 (A4 ++ (natDigits p ++ Gen.payloadEnd)) post1 post1_len
+  simp only [List.append_assoc] at this
+  rw [this]
   rfl
 
 theorem find_versionStart (p : Nat) : findSub Gen.versionStart (seenText p) = some pre1.length := by
@@ -273,7 +269,8 @@ theorem find_payloadStart (p : Nat) : findSub Gen.payloadStart (seenText p) =
   have : seenText p = (pre1 ++ (Gen.versionStart ++ ([49] ++ (Gen.versionEnd ++ mid1)))) ++ (Gen.payloadStart ++
       (natDigits p ++ (Gen.payloadEnd ++ post1'))) := by simp [seenText, List.append_assoc]
   rw [this, findSub_lit _ _ _ no_earlier_payloadStart]
-  simp [A4]
+  simp only [A4, List.length_append, List.length_cons, List.length_nil, Option.some.injEq]
+  omega
 
 /-- the end pattern of the payload size is first found right after the digits, whatever they are -/
 theorem find_payloadEnd (p : Nat) :
@@ -310,6 +307,8 @@ theorem find_payloadEnd (p : Nat) :
         have hwin := isPrefixOf_getElem _ _ k c hpre hc
         -- the window's element k is element (j + k - A4.length) of the digits
         have hlen : (A4 ++ natDigits p).length = A4.length + (natDigits p).length := by simp
+        have hj' : j < A4.length + (natDigits p).length := by rw [← hlen]; exact hj
+        have hdpos : 0 < (natDigits p).length := List.length_pos_iff.mpr hne
         have hget : (List.drop j (A4 ++ natDigits p) ++ (Gen.payloadEnd ++ post1'))[k]? =
             (natDigits p)[j + k - A4.length]? := by
           rw [List.getElem?_append_left (by
@@ -318,5 +317,104 @@ theorem find_payloadEnd (p : Nat) :
         rw [hget] at hwin
         have hmem : c ∈ natDigits p := List.mem_of_getElem? hwin
         exact payloadEnd_nondigit k hk c hc (hdig c hmem)
+
+end BS.Impl
+
+namespace BS.Impl
+open BS
+
+theorem parse_version (p : Nat) :
+    parseBetween Gen.versionStart Gen.versionEnd (seenText p) 65535 = .ok Gen.version := by
+  unfold parseBetween
+  rw [find_versionStart, find_versionEnd]
+  simp only
+  have hlt : ¬ (pre1.length + Gen.versionStart.length + 1 < pre1.length + Gen.versionStart.length) := by omega
+  simp only [hlt, if_false]
+  have hsl : ((seenText p).take (pre1.length + Gen.versionStart.length + 1)).drop (pre1.length + Gen.versionStart.length)
+      = natDigits Gen.version := by
+    have : seenText p = (pre1 ++ Gen.versionStart) ++ ([49] ++ (Gen.versionEnd ++ (mid1 ++ (Gen.payloadStart ++
+        (natDigits p ++ (Gen.payloadEnd ++ post1')))))) := by simp [seenText, List.append_assoc]
+    rw [this, version_digits]
+    have := slice_mid (pre1 ++ Gen.versionStart) [49] (Gen.versionEnd ++ (mid1 ++ (Gen.payloadStart ++
+        (natDigits p ++ (Gen.payloadEnd ++ post1')))))
+    simpa using this
+  rw [hsl, parseDec_natDigits 65535 Gen.version (by decide)]
+
+theorem parse_payload (p : Nat) (hp : p ≤ u64Max) :
+    parseBetween Gen.payloadStart Gen.payloadEnd (seenText p) u64Max = .ok p := by
+  unfold parseBetween
+  rw [find_payloadStart, find_payloadEnd]
+  simp only
+  have hps : Gen.payloadStart.length ≤ A4.length := by
+    simp only [A4, List.length_append]; omega
+  have hs : A4.length - Gen.payloadStart.length + Gen.payloadStart.length = A4.length := by omega
+  rw [hs]
+  have hlt : ¬ (A4.length + (natDigits p).length < A4.length) := by omega
+  simp only [hlt, if_false]
+  have hsl : ((seenText p).take (A4.length + (natDigits p).length)).drop A4.length = natDigits p := by
+    rw [seenText_A4]; exact slice_mid _ _ _
+  rw [hsl, parseDec_natDigits u64Max p hp]
+
+theorem seenText_ascii (p : Nat) : (seenText p).any (fun c => decide (c.toNat ≥ 128)) = false := by
+  rw [seenText_A4]
+  rw [Bool.eq_false_iff]
+  intro h
+  rw [List.any_eq_true] at h
+  obtain ⟨c, hc, hge⟩ := h
+  simp only [decide_eq_true_eq] at hge
+  simp only [List.mem_append] at hc
+  rcases hc with hc | hc | hc
+  · have := lit_ascii.1 c hc; omega
+  · have := natDigits_digits p c hc; unfold isDigit at this; omega
+  · have := lit_ascii.2 c (by simpa using hc); omega
+
+theorem fullText_length_lt (p : Nat) (hp : p ≤ u64Max) : 4 ≤ (fullText p).length ∧ (fullText p).length < 256 ^ 4 := by
+  have hd : (natDigits p).length ≤ 20 := natDigits_length_le 19 p (by unfold u64Max at hp; omega)
+  rw [fullText_eq]
+  have h1 : A4.length = 280 := by decide +kernel
+  have h2 : (Gen.payloadEnd ++ post1).length = 936 := by decide +kernel
+  simp only [List.length_append] at h2 ⊢
+  omega
+
+/-- **T10: the header round trip.**  What `to_text` + user header writes,
+`check_and_split_off_user_header` reads back as exactly the payload size and the user
+header — for every payload size a `usize` holds and every user header, whatever bytes it
+contains — and it refuses any other demanded payload size with `PayloadSizeChanged`. -/
+theorem header_roundtrip (p : Nat) (hp : p ≤ u64Max) (user : Bytes) (want : Option Nat) :
+    checkAndSplitHeader (toText p ++ user) want =
+      match want with
+      | none => .ok (p, user)
+      | some w => if p ≠ w then .error (.err "Parameters/PayloadSizeChanged") else .ok (p, user) := by
+  have htext : toText p = leN 4 (fullText p).length ++ fullText p := rfl
+  obtain ⟨hlen4, hlenlt⟩ := fullText_length_lt p hp
+  have hleN : (leN 4 (fullText p).length).length = 4 := leN_length 4 _
+  have htake4 : (toText p ++ user).take 4 = leN 4 (fullText p).length := by
+    rw [htext, List.append_assoc]; exact List.take_left' hleN
+  have hhlen : (toText p ++ user).length = 4 + (fullText p).length + user.length := by
+    rw [htext]; simp only [List.length_append, hleN]
+  have htextLen : unN ((toText p ++ user).take 4) = (fullText p).length := by
+    rw [htake4, unN_leN 4 _ hlenlt]
+  have hseen : ((toText p ++ user).take (fullText p).length).drop 4 = seenText p := by
+    rw [htext, List.append_assoc, List.drop_take, List.drop_left' hleN,
+      List.take_append_of_le_length (by omega)]
+    exact fullText_take p
+  have hrest : (toText p ++ user).drop ((fullText p).length + 4) = user := by
+    rw [htext]
+    exact List.drop_left' (by simp only [List.length_append, hleN]; omega)
+  unfold checkAndSplitHeader
+  have c1 : ¬ (toText p ++ user).length < 4 := by omega
+  simp only [c1, if_false, htextLen]
+  have c2 : ¬ (fullText p).length > (toText p ++ user).length := by omega
+  have c3 : ¬ (fullText p).length < 4 := by omega
+  simp only [c2, c3, if_false, hseen, seenText_ascii, Bool.false_eq_true, bind, Except.bind,
+    parse_version, parse_payload p hp, ne_eq, not_true_eq_false, hrest]
+  have c4 : ¬ (fullText p).length + 4 > (toText p ++ user).length := by omega
+  cases want with
+  | none => simp only [c4, if_false]
+  | some w =>
+    simp only
+    by_cases hw : p = w
+    · subst hw; simp only [ne_eq, not_true_eq_false, if_false, c4]
+    · simp only [ne_eq, hw, not_false_eq_true, if_true]
 
 end BS.Impl
